@@ -432,7 +432,7 @@ func invoke(input OmegaInput) (output OmegaOutput) {
 	switch c.GetReasonType() {
 	case HOST_CALL:
 		input.VM.Registers[7] = INNERHOST
-		input.VM.Registers[8] = uint64(c.GetHostCallID())
+		input.VM.Registers[8] = c.HostCallID()
 
 	case PAGE_FAULT:
 		input.VM.Registers[7] = INNERFAULT
